@@ -1126,6 +1126,31 @@ func (g *G) block(kind string) string {
 			}
 		}
 		return "<p>" + strings.Join(ws, " ") + "</p>\n"
+	case "ctltail":
+		// a control as the last thing in a list item / quote (check lists, share buttons): its text is
+		// no reading text, and the words before it stay where they are
+		ctlf := func() string {
+			g.push("hb")
+			defer g.pop()
+			switch g.pick("ctltailk", "checkbox", "button", "select", "submit") {
+			case "button":
+				return "<button>" + g.words(1) + "</button>"
+			case "select":
+				return "<select><option>" + g.words(1) + "</option></select>"
+			case "submit":
+				return `<input type="submit" value="` + g.tok() + `">`
+			}
+			return `<input type="checkbox">`
+		}
+		if g.chance(60, "ctltaillist") {
+			var b strings.Builder
+			b.WriteString("<ul>")
+			for i := g.intn(1, 3, "ctltailn"); i > 0; i-- {
+				b.WriteString("<li>" + g.words(g.intn(8, 30, "ctltailw")) + " " + ctlf() + "</li>")
+			}
+			return b.String() + "</ul>\n"
+		}
+		return "<blockquote>" + g.words(g.intn(15, 50, "ctltailq")) + ctlf() + "</blockquote>\n"
 	case "inlineimg":
 		return "<p>" + g.inline(g.plen()) + " " + strings.TrimSpace(g.img()) + " " + g.inline(g.plen()) + "</p>\n"
 	}
